@@ -175,21 +175,39 @@ def clause_validate_before_mutate(R, F, CG):
                  sample={"rule": "DOM-before", "entry": name, "mutation": sorted(set(what))[:3], "validator": why})
     R.floor("engine_mutation_sites", n, 8)
     # validators are effect free
-    for v in VALIDATORS:
-        f = em.get(v)
+    for role, v in (("next-tx", "validate_next_tx"), ("boundary", "require_no_waiting_txes")):
+        f = validator_fn(F, role)
         if f is None:
-            R.violation("ANCHOR", "engine", "ANCHOR|%s" % v, "validator %s not found" % v)
+            R.violation("ANCHOR", "engine", "ANCHOR|%s" % v, "validator %s not found (by name or by behaviour)" % v)
             continue
         bad = sorted(e for e in cl[f.id] if (e[0] == "MUT" and e[1] in containers) or e[0] in ("WDISK", "COMMIT", "WLOCK", "SLOT"))
         R.ob(not bad, "EFFECT", f.where(), "EFFECT|%s" % v, "validator %s has effects %s" % (v, bad), sample={"rule": "EFFECT", "fn": v, "effects": []})
     return E
 
 
+def validator_fn(F, role):
+    """the engine's two validators by what they do, not by their name: `boundary` = refuses while a block is under
+    construction and takes nothing but self; `next-tx` = the one that also compares call parameters"""
+    em = engine_methods(F)
+    byname = {"next-tx": "validate_next_tx", "boundary": "require_no_waiting_txes"}[role]
+    if byname in em:
+        return em[byname]
+    cands = [em[n] for n in sorted(discovered_validators(F, em))]
+    cands = [f for f in cands if (f.j["mir"]["argc"] == 1) == (role == "boundary")]
+    return cands[0] if len(cands) == 1 else None
+
+
 def clause_validator_rows(R, F):
     em = engine_methods(F)
-    fn = em.get("validate_next_tx")
+    fn = validator_fn(F, "next-tx")
+    fb = validator_fn(F, "boundary")
+    R.ob(fn is not None and fb is not None, "ANCHOR", "(engine)", "ANCHOR|validators", "the engine's block-protocol validators were not found "
+         "(no method that refuses on waiting_tx_count, by name or by behaviour)")
+    if fn is None or fb is None:
+        return
     cl = [g for g in F.fns.values() if g.kind == "closure" and g.j.get("parent") == fn.id]
-    R.floor("validate_next_tx_closure", len(cl), 1)
+    if not R.floor("validate_next_tx_closure", len(cl), 1):
+        return
     g = cl[0]
     eb = error_blocks(g)
 
@@ -281,7 +299,7 @@ def clause_validator_rows(R, F):
              " / ".join(sorted({"number", "hash"} - set(seen))), seen),
          sample={"rule": "GUARD", "fn": "validate_next_tx", "rows": seen})
     # require_no_waiting_txes: Err iff waiting_tx_count != 0
-    f = em.get("require_no_waiting_txes")
+    f = fb
     ok = False
     for (b, s, fm, line) in edge_forms(f):
         r, k, rel, bad = fm.roles(lambda a: "waiting" if mentions(a, "waiting_tx_count") else None)
